@@ -202,8 +202,16 @@ func mpScenario(cr *childRun, sid int) {
 		}
 	}
 	// everything the hostile peer sent has been handled when a marker it sends last shows up (or it was dropped)
+	// commit is the stand-in for a block commit that removes what was reaped. A real commit
+	// comes at least a consensus round after the transactions arrived: without the pause the
+	// harness itself produces the schedule "list becomes non-empty and empty again before a
+	// waiter in clist.FrontWait has returned", which panics in sync.WaitGroup (see report).
+	commit := func(h int64) {
+		time.Sleep(100 * time.Millisecond)
+		pool.Update(h, pool.Reap(-1))
+	}
 	if ensure() {
-		pool.Update(1, pool.Reap(-1))
+		commit(1)
 		marker := types.Tx(fmt.Sprintf("marker-%d", sid))
 		x.send(mpCh, encTx(marker))
 		waitUntil(8*time.Second, func() bool { return containsTx(pool.Reap(-1), marker) || x.isClosed() })
@@ -220,10 +228,9 @@ func mpScenario(cr *childRun, sid int) {
 	x.close()
 
 	// a block is committed with everything reaped, then honest traffic
-	reaped := pool.Reap(-1)
-	pool.Update(2, reaped)
+	commit(2)
 	if pool.Size() != 0 {
-		viol("mempool-not-emptied-by-update", fmt.Sprintf("after Update with all %d reaped transactions the pool still holds %d", len(reaped), pool.Size()), nil)
+		viol("mempool-not-emptied-by-update", fmt.Sprintf("after Update with all reaped transactions the pool still holds %d", pool.Size()), nil)
 	}
 	for len(obs.in) > 0 {
 		<-obs.in
@@ -291,8 +298,8 @@ func containsTx(txs []types.Tx, tx types.Tx) bool {
 func mpFamily() *family {
 	return &family{
 		name:     "mp",
-		children: 3,
-		total:    func() int { return lib.Pick(12, 240) },
+		children: 2,
+		total:    func() int { return lib.Pick(8, 160) },
 		run:      mpScenario,
 		watchdog: func(n int) time.Duration { return time.Duration(120+n*40) * time.Second },
 		crashKey: func(site, routine string) string { return "mempool-panic-outside-recover:" + routine + ":" + site },
